@@ -271,11 +271,12 @@ def values_of(body, names):
 
 
 def expand_tuple_assigns(stmts):
-    """`a.x, a.y = p, q` (as many plain names on the right as targets on the left) as one assignment per target: the order of such copies is immaterial"""
+    """`a.x, a.y = p, q` (as many call-free values on the right as targets on the left, none of them reading a target) as one assignment per target: the order of such copies is immaterial"""
     out = []
     for st in stmts:
         if isinstance(st, ast.Assign) and len(st.targets) == 1 and isinstance(st.targets[0], ast.Tuple) and isinstance(st.value, ast.Tuple) and len(st.targets[0].elts) == len(st.value.elts) \
-                and all(isinstance(v, (ast.Name, ast.Constant)) for v in st.value.elts):
+                and not ({ast.unparse(t) for t in st.targets[0].elts} & {ast.unparse(x) for v in st.value.elts for x in ast.walk(v) if isinstance(x, (ast.Name, ast.Attribute, ast.Subscript))}) \
+                and not any(isinstance(x, (ast.Call, ast.Yield, ast.Await, ast.NamedExpr)) for v in st.value.elts for x in ast.walk(v)):
             out += [ast.copy_location(ast.Assign(targets=[t], value=v, lineno=st.lineno), st) for t, v in zip(st.targets[0].elts, st.value.elts)]
         else:
             out.append(st)
